@@ -302,6 +302,11 @@ func genC11(seed uint64, withSpec bool) *Scenario {
 	case withSpec:
 		op := specOp(r)
 		op.Kind = KSpec
+		if r.Chance(600) {
+			// a document breaking many rules at once: whatever the aborted validation leaves switched off shows in a later one
+			d, _ := GenSpec(r, pick(r, []int{3, 5, 8}))
+			op.Doc = js(d)
+		}
 		op.Fault = &Fault{Kind: "checker-panic"}
 		if r.Chance(450) {
 			// the SpecValidator object itself goes on being used after the panic (for the same and for another document)
@@ -465,6 +470,10 @@ func runC11(sc *Scenario, keepLog bool) *RunReport {
 		seen := map[int]bool{}
 		for len(ks) < maxK {
 			k := 1 + rr.Intn(n)
+			if rr.Chance(500) {
+				// the later phases of a long validation (a whole specification: defaults, examples) get their share
+				k = n - rr.Intn(n*2/5+1)
+			}
 			if !seen[k] {
 				seen[k] = true
 				ks = append(ks, k)
